@@ -186,6 +186,18 @@ func c07Drive(t *testing.T, run func(mode, kind, src string), stats *verifh.Stat
 		run("debug", "debugcmd", cmd)
 	}
 
+	// concurrent programs (own PRNG stream: the cases below are the same as before)
+	for _, src := range c07Conc {
+		run("admin", "conc", src)
+		run("test", "conc", src)
+	}
+
+	rc := verifh.Rand(77)
+
+	for i, n := 0, verifh.N(30, 1500); i < n; i++ {
+		run(modes[rc.Intn(2)], "concgen", c07GenConc(rc))
+	}
+
 	for _, src := range c07Hangs {
 		run("admin", "hang", src)
 	}
